@@ -94,4 +94,23 @@ def mkReply (h : Hdr) (body : List Nat) : List Nat :=
   let rest := [h.rsSa, h.seq * 4 + h.rsLun, h.cmd] ++ body
   [h.rqSa, b1, c1] ++ rest ++ [(256 - rest.sum % 256) % 256]
 
+/-- The request a requester sends (figure "request"): stimulus for code that ANSWERS requests. -/
+def mkRequest (h : Hdr) (data : List Nat) : List Nat :=
+  let b1 := h.netfn * 4 + h.rsLun
+  let c1 := (256 - (h.rsSa + b1) % 256) % 256
+  let rest := [h.rqSa, h.seq * 4 + h.rqLun, h.cmd] ++ data
+  [h.rsSa, b1, c1] ++ rest ++ [(256 - rest.sum % 256) % 256]
+
+/-- What the requester reads from a response frame (figure "response"): requester address and LUN in
+the connection header, responder address and LUN behind it — both keep their ROLES, `rsSa` is the
+controller that answers; `netfn` is the network function on the wire (the request's plus one); the data
+starts with the completion code.  `none` unless the frame has a header, a second checksum and both
+checksums verify. -/
+def parseRsp (f : List Nat) : Option (Hdr × List Nat) :=
+  if 7 ≤ f.length ∧ hdrOk f ∧ payOk f then
+    some ({ rqSa := byteAt f 0, netfn := byteAt f 1 / 4, rqLun := byteAt f 1 % 4,
+            rsSa := byteAt f 3, seq := byteAt f 4 / 4, rsLun := byteAt f 4 % 4,
+            cmd := byteAt f 5 }, frameData f)
+  else none
+
 end PyIpmi.Spec.Wire
